@@ -472,8 +472,10 @@ func escapeLiteral(r *Rng, s string, q rune) string {
 			sb.WriteString("\\n")
 		case ch == '\t' && r.Bool():
 			sb.WriteString("\\t")
-		case ch == '\r':
+		case ch == '\r' && r.Chance(60):
 			sb.WriteString("\\r")
+		case ch == '\r' && r.Bool():
+			sb.WriteString("\\\r") // backslash + raw carriage return: an "other" escaped character
 		case ch == '"' && q == '\'' && r.Bool():
 			sb.WriteString("\\\"")
 		case r.Chance(5) && ch != 'n' && ch != 'r' && ch != 't' && ch != '\n' && ch != 0:
@@ -517,6 +519,35 @@ func genLex(stream string, seed uint64, n int) []GenCase {
 		}
 		lit := string(q) + escapeLiteral(r, txt, q) + string(q)
 		add("return "+lit+";", fmt.Sprintf("str-%d", i), "expect:"+hexs(txt), []string{"tokens"}, "string-literal")
+	}
+	// every ASCII character (and a few others) after a backslash, followed by letters that would
+	// themselves be escapes if the backslash were applied to the wrong character
+	for _, q := range []rune{'"', '\''} {
+		others := []rune{0x80, 0xa0, 0xe9, 0x2028, 0xfeff, 0x1f642}
+		for ch := rune(1); ch < 128+rune(len(others)); ch++ {
+			c := ch
+			if ch >= 128 {
+				c = others[ch-128]
+			}
+			var want string
+			switch c {
+			case 'n':
+				want = "\n"
+			case 'r':
+				want = "\r"
+			case 't':
+				want = "\t"
+			case '\n':
+				want = "" // continuation
+			default:
+				want = string(c)
+			}
+			for _, tail := range []string{"n", "t", "\\n", "x"} {
+				wt := map[string]string{"n": "n", "t": "t", "\\n": "\n", "x": "x"}[tail]
+				lit := string(q) + "a\\" + string(c) + tail + "b" + string(q)
+				add("return "+lit+";", fmt.Sprintf("esc-%d-%d-%s", q, c, hexs(tail)), "expect:"+hexs("a"+want+wt+"b"), []string{"tokens"}, "escaped-char")
+			}
+		}
 	}
 	// regexp literals: pattern + flags reach the constant pool
 	for i := 0; i < n/2; i++ {
@@ -575,13 +606,14 @@ func genFuzz(stream string, seed uint64, n int) []GenCase {
 	r := NewRng(seed)
 	var out []GenCase
 	id := 0
-	add := func(script string, obj HV, tags ...string) {
-		c := Case{ID: fmt.Sprintf("%s-%d", stream, id), Script: script, Opt: r.Bool(), Tags: tags, Show: []string{"tokens", "code"},
+	addOpt := func(script string, obj HV, opt bool, tags ...string) {
+		c := Case{ID: fmt.Sprintf("%s-%d", stream, id), Script: script, Opt: opt, Tags: tags, Show: []string{"tokens", "code"},
 			Fns: []HostFn{recFn(), {Name: "hnil", Kind: "nil"}, {Name: "hpanic", Kind: "panic"}},
 			Runs: []Run{{Obj: obj, Polls: 5000}, {Obj: stdObject(r), Polls: 5000}}}
 		id++
 		out = append(out, GenCase{Case: c, Stream: stream, NonTrivial: true})
 	}
+	add := func(script string, obj HV, tags ...string) { addOpt(script, obj, r.Bool(), tags...) }
 	for i := 0; i < n; i++ {
 		// random bytes
 		nb := r.Intn(30)
@@ -640,8 +672,24 @@ func genFuzz(stream string, seed uint64, n int) []GenCase {
 		"return 9223372036854775807 + 1;", "return -9223372036854775807 - 2;", "return 9223372036854775807 * 2;", "return (0 - 9223372036854775807 - 1) / -1;", "return (0 - 9223372036854775807 - 1) % -1;",
 		"return hour(\"x\");", "return weekday(99999999999);", "return year(-99999999999);", "return keys(1);", "return join([1, [2, [3]]], \",\");", "return string({1: {2: [3]}});",
 		"x++; return x;", "++;", "--;", "(1)++;", "return 1; ++;", "\"s\"++;", "return (1, 2);", "OPTIMIZE = 5; return OPTIMIZE;", "return \"a\"(1);", "return 1(2);", "return (f)(1);", "return [1][0](2);"} {
-		add(s, stdObject(r), "runtime-fault")
+		addOpt(s, stdObject(r), true, "runtime-fault")
+		addOpt(s, stdObject(r), false, "runtime-fault")
 		add(s, oddObject(r), "runtime-fault-odd-object")
+	}
+	// faults in constant expressions, which the optimizer may try to evaluate while Prepare runs:
+	// every operator between small literals with a zero / negative / huge right operand, in live and dead code
+	for _, op := range []string{"+", "-", "*", "/", "%", "**", "==", "!=", "<", "<=", ">", ">=", "&&", "||", "..", "in", "~=", "!~"} {
+		for _, operands := range [][2]string{{"7", "0"}, {"0", "0"}, {"7", "(3 - 3)"}, {"65534", "65534"}, {"2", "64"}, {"7", "65535"}, {"0", "7"}, {"1", "-1"}} {
+			e := operands[0] + " " + op + " " + operands[1]
+			for _, t := range []string{"return " + e + ";", "if (" + e + " == 1) { return true; } return false;", "if (false) { x = " + e + "; } return 1;",
+				"function f() { return " + e + "; } return 2;", "return true ? 1 : " + e + ";"} {
+				addOpt(t, stdObject(r), true, "constant-fault")
+			}
+		}
+	}
+	for _, e := range []string{"√0", "√-4", "√(0 - 4)", "√65534", "-0", "!0", "√√16", "√4 % 0", "√9 / 0", "-(1 / 0)"} {
+		addOpt("return "+e+";", stdObject(r), true, "constant-fault")
+		addOpt("if (false) { return "+e+"; } return 1;", stdObject(r), true, "constant-fault")
 	}
 	return out
 }
